@@ -1200,10 +1200,41 @@ class Interp:
         return False
 
     # ------------------------------------------------------------------- with
+    def _suppress_as_try(self, stmt, index, fr):
+        """``with suppress(E, ...): body`` is ``try: body`` / ``except (E, ...): pass``"""
+        item = stmt.items[index]
+        call = item.context_expr
+        if not (isinstance(call, ast.Call) and not call.keywords and call.args and
+                ast.unparse(call.func) in ('suppress', 'contextlib.suppress')):
+            return None
+        binding = self.p.resolve_dotted(fr.fn.module, call.func)
+        if not binding or binding[0] != 'ext' or binding[1] != 'contextlib.suppress':
+            return None   # some other `suppress`
+        cache = getattr(stmt, '_suppress_try', None)
+        if cache is None:
+            cache = {}
+            stmt._suppress_try = cache
+        if index not in cache:
+            inner = stmt.body if index + 1 >= len(stmt.items) else [ast.copy_location(
+                type(stmt)(items=stmt.items[index + 1:], body=stmt.body), stmt)]
+            caught = call.args[0] if len(call.args) == 1 else ast.Tuple(
+                elts=list(call.args), ctx=ast.Load())
+            handler = ast.ExceptHandler(type=caught, name=None, body=[ast.Pass()])
+            node = ast.Try(body=inner, handlers=[handler], orelse=[], finalbody=[])
+            for sub in (handler, handler.body[0], node, caught):
+                ast.copy_location(sub, call)
+            ast.fix_missing_locations(node)
+            cache[index] = node
+        return cache[index]
+
     def st_With(self, stmt, st, fr, index=0):
         if index >= len(stmt.items):
             return self.exec_block(stmt.body, st, fr)
         item = stmt.items[index]
+        as_try = self._suppress_as_try(stmt, index, fr) if item.optional_vars is None \
+            else None
+        if as_try is not None:
+            return self.st_Try(as_try, st, fr)
         types = self.etype(item.context_expr, fr)
         sts, raised = self._simple([item.context_expr], st, fr)
         results = list(raised)
